@@ -8,7 +8,16 @@ env = {k: v for k, v in os.environ.items() if not k.startswith('DEEP_')}
 env['PYTHONPATH'] = os.path.join(repo, 'src') + os.pathsep + os.path.join(repo, 'tests')
 cmd = ['/venv/bin/python', '-m', 'pytest', '-ra', '-q', '-p', 'no:cacheprovider', '--timeout=900',
        '--continue-on-collection-errors', '--junitxml=' + path] + sys.argv[2:]
-p = subprocess.run(cmd, cwd=repo, env=env, capture_output=True, text=True)
+# the integration tests bind a fixed TCP port: give the run a network namespace of its own when the kernel lets us, so
+# that several runs (e.g. the seeded-change matrix streams) do not collide
+if subprocess.run(['unshare', '-rn', 'true'], capture_output=True).returncode == 0:
+    cmd = ['unshare', '-rn', 'sh', '-c', 'ip link set lo up; exec "$@"', 'sh'] + cmd
+try:
+    p = subprocess.run(cmd, cwd=repo, env=env, capture_output=True, text=True, timeout=2400)
+except subprocess.TimeoutExpired:
+    print('the suite did not finish within 2400 s')
+    os.unlink(path)
+    sys.exit(1)
 passed = set()
 for tc in ET.parse(path).getroot().iter('testcase'):
     if not any(ch.tag in ('failure', 'error', 'skipped') for ch in tc):
